@@ -134,6 +134,12 @@ def task_history(pl):
             elif name == 'clone_ahead':
                 before = canon(lex.val)
                 c = Cell(ex.call_root(A + 'h_clone', [lref]))
+                if canon(c.val) != before:
+                    fail(f'a fresh clone differs from the original: {canon(c.val)} vs {before}')
+                cs, ce = span_of(c, A)
+                os_, oe = span_of(lex, A)
+                if (str(cs), str(ce)) != (str(os_), str(oe)):
+                    fail(f'clone reports span {cs}..{ce}, the original {os_}..{oe}')
                 rc_ = ex.call_root(A + 'h_next', [Ref(c, ())])
                 if canon(lex.val) != before:
                     fail('advancing a clone changed the original lexer')
